@@ -125,7 +125,7 @@ type frame struct {
 	labels       map[string]int
 	callerSt     *State
 	depth        int
-	loopOrds     map[ast.Stmt]int
+	loopOrds     map[ast.Node]int
 	litVars      map[*types.Var]*ast.FuncLit
 	namedResults bool
 }
